@@ -105,9 +105,14 @@ type pieceReader struct {
 	b     []byte
 	piece int
 	off   int
+	delay time.Duration // before the first byte (and before the end of an empty input): a producer that starts late
 }
 
 func (p *pieceReader) Read(out []byte) (int, error) {
+	if p.delay > 0 {
+		time.Sleep(p.delay)
+		p.delay = 0
+	}
 	if p.off >= len(p.b) {
 		return 0, io.EOF
 	}
@@ -149,6 +154,9 @@ type Opt struct {
 	// StdinPieces > 1 delivers Stdin in that many pieces with a pause between them (a producer that is slower
 	// than crd: reads return short).
 	StdinPieces int
+	// StdinDelay makes the producer of the standard input start late: nothing arrives (and the pipe stays open) for
+	// that long. It is a property of the environment, never part of a verdict.
+	StdinDelay time.Duration
 	// StdinKind selects what the child's standard input is: "" or "pipe" (default), "file" (a regular file
 	// at offset 0), "fileoffset" (a regular file whose first line another reader has consumed already),
 	// "socket" (one end of a socket pair), "eio" (the bytes, then a read error instead of end of input: the
@@ -202,8 +210,9 @@ func (r *Runner) Run(o Opt, args ...string) *Result {
 		after = append(after, cleanup)
 		cmd.Stdin = f
 	} else if o.Stdin != nil {
-		if o.StdinPieces > 1 {
-			cmd.Stdin = &pieceReader{b: o.Stdin, piece: (len(o.Stdin) + o.StdinPieces - 1) / o.StdinPieces}
+		if o.StdinPieces > 1 || o.StdinDelay > 0 {
+			n := max(o.StdinPieces, 1)
+			cmd.Stdin = &pieceReader{b: o.Stdin, piece: (len(o.Stdin) + n - 1) / n, delay: o.StdinDelay}
 		} else {
 			cmd.Stdin = bytes.NewReader(o.Stdin)
 		}
